@@ -47,6 +47,7 @@ struct Runner {
     ex.begin(it);
     try { w.run(); }
     catch (HarnessError &e) { res.harness = true; res.hmsg = e.msg; }
+    catch (Hang &h) { if (w.crash_soft) w.soft_violation(h.key, h.text); else w.violation(h.key, h.text); }
     w.kill_all_real();
     if (ex.diverged) { res.harness = true; res.hmsg = "nondeterminism: " + ex.diverge_msg; }
     res.violated = w.aborted; res.key = w.viol_key; res.text = w.viol_text; res.trace = w.trace_hash; res.tracelog = w.tracelog; res.steps = w.total_steps;
